@@ -24,24 +24,24 @@ type Engine struct {
 	// RootParamsNonNil: pointer parameters (and receivers) of root functions are assumed non-nil.
 	Roots map[*ssa.Function]bool
 
-	moduleFuncs []*ssa.Function
-	fas         map[*ssa.Function]*FuncAn
-	busy        map[*ssa.Function]bool
-	sums        map[*ssa.Function]*Summary
-	sumBusy     map[*ssa.Function]bool
-	writes      map[*ssa.Function]*WriteSet
-	extWrites   map[*ssa.Function]*WriteSet
-	fieldInv    map[*types.Var]fieldInvRes
-	callees     map[ssa.CallInstruction][]*ssa.Function
-	callers     map[*ssa.Function][]ssa.CallInstruction
+	moduleFuncs   []*ssa.Function
+	fas           map[*ssa.Function]*FuncAn
+	busy          map[*ssa.Function]bool
+	sums          map[*ssa.Function]*Summary
+	sumBusy       map[*ssa.Function]bool
+	writes        map[*ssa.Function]*WriteSet
+	extWrites     map[*ssa.Function]*WriteSet
+	fieldInv      map[*types.Var]fieldInvRes
+	callees       map[ssa.CallInstruction][]*ssa.Function
+	callers       map[*ssa.Function][]ssa.CallInstruction
 	paramMaybeNil map[*ssa.Parameter]string // parameter -> call site that may pass nil
-	Scope       map[*ssa.Function]bool      // functions whose call sites count for parameter preconditions
-	externSeen  map[string]*ExternUse
-	mapInv      map[string]bool
-	decs        map[*ssa.Function]*DecSummary
-	ctxFas      map[*ssa.Function]*FuncAn
-	ctxBusy     map[*ssa.Function]bool
-	countSums   map[*ssa.Function]*CountSummary
+	Scope         map[*ssa.Function]bool    // functions whose call sites count for parameter preconditions
+	externSeen    map[string]*ExternUse
+	mapInv        map[string]bool
+	decs          map[*ssa.Function]*DecSummary
+	ctxFas        map[*ssa.Function]*FuncAn
+	ctxBusy       map[*ssa.Function]bool
+	countSums     map[*ssa.Function]*CountSummary
 }
 
 func NewEngine(prog *ssa.Program, cg *callgraph.Graph, inModule func(*ssa.Function) bool, goarch string) *Engine {
@@ -188,7 +188,7 @@ type Obl struct {
 	Status     Status
 	Why        string
 	Nontrivial bool
-	Input      bool // some operand derives from an input symbol
+	Input      bool   // some operand derives from an input symbol
 	Assumed    string // discharged by a stated assumption (e.g. "A5"), not by a fact
 }
 
